@@ -1,12 +1,15 @@
 (* C01 — recursive verification accepts exactly the trees that match their Manifests.
    Statements only; proofs in Proofs/VerifyPath.v, Proofs/KeepGoing.v, Proofs/UtilSpec.v.
-   PARTIAL at the level of whole directories: the per-file decision (every entry, every stray
-   object) and the aggregation of all per-file results are proved for all inputs; that the walk
-   presents exactly the non-hidden, non-IGNOREd files is carried by the correspondence engine. *)
+   Proved for all inputs: the per-file decision (every entry, every stray object), the aggregation of all
+   per-file results, and - for one directory - exactly WHICH objects are presented: every listed file that
+   is not hidden and is not the top-level Manifest, once, with the entry recorded under its name or none;
+   every listed sub-directory that has an entry; every other entry of the directory as a missing file.
+   PARTIAL: how the per-directory dictionaries and the pruned sub-directory lists compose over the whole
+   tree (the recursion of the walk, IGNORE pruning) is carried by the correspondence engine. *)
 From Coq Require Import List NArith ZArith.
 From Gemato Require Import Py.PyStr Py.PyPath Gen.Tables Gen.Util Model.Entry Model.Text Model.OpenPGP Model.Hash
   Model.FS Model.Verify Model.Loader.
-From Gemato Require Import Proofs.VerifyPath Proofs.KeepGoing Proofs.UtilSpec.
+From Gemato Require Import Proofs.VerifyPath Proofs.KeepGoing Proofs.UtilSpec Proofs.DirSpec.
 Import ListNotations.
 Open Scope N_scope.
 
@@ -55,3 +58,24 @@ Theorem C01_ignore_components : forall path prefix,
   path_starts_with path prefix = true <-> starts_with_spec path prefix.
 Proof. exact path_starts_with_spec. Qed.
 Print Assumptions C01_ignore_components.
+
+(* one directory: verification is the verification, in order, of the items of that directory ... *)
+Theorem C01_directory_is_its_items : forall (L : hashlib) w c dp rp dirnames filenames dirdict log,
+  verify_dir L w c dp rp dirnames filenames dirdict log
+  = verify_items L w c dp rp (dir_items (vc_top c) rp dirnames filenames dirdict) (Ok (true, log)).
+Proof. exact verify_dir_items. Qed.
+Print Assumptions C01_directory_is_its_items.
+
+(* ... and the items are exactly: each name at most once; a listed sub-directory iff it has an entry; a listed
+   file iff it is visible (not hidden, not the top-level Manifest) - with the entry recorded under its name, or
+   none (a stray file) -; and every entry whose name was not met, as a file that should exist *)
+Theorem C01_items_exactly : forall top rp dirnames filenames dirdict,
+  NoDup (dirnames ++ filenames) -> NoDup (map fst dirdict) ->
+  NoDup (map fst (dir_items top rp dirnames filenames dirdict)) /\
+  forall name e, In (name, e) (dir_items top rp dirnames filenames dirdict) <->
+    (In name dirnames /\ exists de, assoc name dirdict = Some de /\ e = Some de) \/
+    (In name filenames /\ visible top rp name = true /\ e = assoc name dirdict) \/
+    (~ In name dirnames /\ ~ (In name filenames /\ visible top rp name = true) /\
+     exists de, assoc name dirdict = Some de /\ e = Some de).
+Proof. exact dir_items_spec. Qed.
+Print Assumptions C01_items_exactly.
